@@ -903,6 +903,29 @@ fn size_gate(file: &syn::File, f: &syn::ImplItemFn) -> Option<(bool, bool)> {
     }
 }
 
+/// Does the store function `name` hand the record it has just built (`let record = Record { .. }`) to the node's size
+/// test — the helper both entry points start with — BEFORE `put_local_record(record)`?  `Err` on an unexpected shape
+/// (no single `put_local_record(record)` / no single `let record=Record{`).
+fn put_gate(file: &syn::File, entry: &syn::ImplItemFn, name: &str) -> Result<bool, String> {
+    let et = text_of(&entry.block);
+    let helper = Regex::new(r"^\{(?:Self::|self\.)(\w+)\(&\w+\)\?;").expect("re").captures(&et).map(|c| c[1].to_string());
+    let f = impl_fn(file, "Node", None, name)?;
+    let t = text_of(&f.block);
+    let put = "self.network().put_local_record(record);";
+    if t.matches(put).count() != 1 || t.matches("let record=Record{").count() != 1 {
+        return Err(format!("{name}: expected exactly one `let record = Record {{..}}` and one `put_local_record(record)`"));
+    }
+    let (a, b) = (t.find("let record=Record{").expect("found"), t.find(put).expect("found"));
+    if a > b {
+        return Err(format!("{name}: `put_local_record(record)` precedes the construction of `record`"));
+    }
+    let between = &t[a..b];
+    Ok(match helper {
+        Some(h) => between.contains(&format!("Self::{h}(&record)?;")) || between.contains(&format!("self.{h}(&record)?;")),
+        None => false,
+    })
+}
+
 pub fn generate(repo: &PathBuf) -> Result<String, String> {
     let rel = "ant-node/src/put_validation.rs";
     let file = parse_file(&repo.join(rel))?;
@@ -1125,6 +1148,9 @@ pub fn generate(repo: &PathBuf) -> Result<String, String> {
         return Err("the two entry points compare the record size with MAX_PACKET_SIZE differently".into());
     }
     let node_size_at_limit = if client_gate { client_at_limit } else { repl_at_limit };
+    // … and on the record a store function builds by merging with the local copy, before it is put
+    let tx_merged_gate = put_gate(&file, client, "validate_merge_and_store_transactions")?;
+    let reg_merged_gate = put_gate(&file, client, "validate_and_store_register")?;
 
     // evmlib verify_data_payment
     let ev = parse_file(&repo.join("evmlib/src/contract/payment_vault/mod.rs"))?;
@@ -1331,6 +1357,8 @@ pub fn generate(repo: &PathBuf) -> Result<String, String> {
     flag("clientPathRefusesOversize", "`validate_and_store_record` compares `record.value.len()` with MAX_PACKET_SIZE before anything else", client_gate);
     flag("replPathRefusesOversize", "`store_replicated_in_record` compares `record.value.len()` with MAX_PACKET_SIZE before anything else", repl_gate);
     flag("nodeSizeRefusesAtLimit", "that comparison is `len >= MAX_PACKET_SIZE` (true) or `>` (false)", node_size_at_limit);
+    flag("txMergedPutRefusesOversize", "`validate_merge_and_store_transactions` applies the same size test to the record it builds (delivered ∪ local transactions) before `put_local_record`", tx_merged_gate);
+    flag("regMergedPutRefusesOversize", "`validate_and_store_register` applies the same size test to the (merged) register record it builds before `put_local_record`", reg_merged_gate);
     flag("closeCutAfterChain", "`get_closest_k_value_local_peers` = `once(self).chain(peers).take(K_VALUE)` (true) or `once(self).chain(peers.take(K_VALUE))` (false)", close_cut_after_chain);
     s.push_str(&format!("/-- libp2p-kad `K_VALUE` -/\ndef kValue : Nat := {kv}\n"));
     s.push_str(&format!("/-- `MAX_PACKET_SIZE` (driver.rs) -/\ndef maxPacketSize : Nat := {max_packet}\n"));
